@@ -383,3 +383,34 @@ Proof.
          {| q_inp := "in.txt"; q_out := "/tmp/b.out"; q_text := "ok" |}.
   repeat split; vm_compute; congruence.
 Qed.
+
+(* ------------------------------------------------------------------ the report file after a history of runs *)
+Lemma fs_lookup_set_same p c fs : fs_lookup p (fs_set p c fs) = Some c.
+Proof. induction fs as [|[q d] r IH]; cbn; [now rewrite String.eqb_refl|].
+  destruct (String.eqb p q) eqn:E; cbn; rewrite E; [reflexivity | exact IH]. Qed.
+
+Lemma fs_lookup_set_other p q c fs : String.eqb p q = false -> fs_lookup p (fs_set q c fs) = fs_lookup p fs.
+Proof. intros N. induction fs as [|[q2 d] r IH]; cbn; [now rewrite N|].
+  destruct (String.eqb q q2) eqn:E; cbn.
+  - apply String.eqb_eq in E. subst. now rewrite N.
+  - destruct (String.eqb p q2); [reflexivity | exact IH]. Qed.
+
+Lemma after_runs_from runs : forall fs p,
+  fs_lookup p (fold_left (write_report false) runs fs)
+  = match last_run_to p runs with Some id => Some [id] | None => fs_lookup p fs end.
+Proof.
+  induction runs as [|[q id] r IH]; intros fs p; [reflexivity|]. cbn [fold_left last_run_to]. rewrite IH.
+  destruct (last_run_to p r); [reflexivity|]. unfold write_report.
+  destruct (String.eqb p q) eqn:E.
+  - apply String.eqb_eq in E. subst. apply fs_lookup_set_same.
+  - now apply fs_lookup_set_other.
+Qed.
+
+Lemma report_file_is_last_run runs p :
+  fs_lookup p (after_runs false runs) = option_map (fun id => [id]) (last_run_to p runs).
+Proof. unfold after_runs. rewrite after_runs_from. now destruct (last_run_to p runs). Qed.
+
+Lemma report_file_append_counterexample :
+  exists runs p, last_run_to p runs = Some 2%N /\ fs_lookup p (after_runs true runs) = Some [1%N; 2%N]
+                 /\ fs_lookup p (after_runs false runs) = Some [2%N].
+Proof. exists [("/w/result.out", 1%N); ("/w/result.out", 2%N)], "/w/result.out". repeat split. Qed.
